@@ -121,6 +121,7 @@ def index_mapping(index, shape):
         "adjacent": adjacent,
         "int_with_array": has_array and any(k == "int" for k, _, _ in expanded),
         "separated": has_array and not adjacent,
+        "zero_width_ellipsis": any(k == "sep" for k, _, _ in expanded),
         "bcast_ndim": len(bshape),
     }
     return mapping, tuple(pshape), feats
